@@ -357,20 +357,13 @@ def trace_validate(root, quick, C):
         shutil.copy(os.path.join(common.SPEC, f), wd)
     tp = os.path.join(wd, "trace.ndjson")
     open(tp, "w").writelines(lines)
-    cmd = ["java", "-Xmx4g", "-Xss64m", "-XX:+UseSerialGC", "-cp", common.TLA_CP, "tlc2.TLC", "-workers", "1",
-           "-metadir", os.path.join(wd, "meta"), "-noGenerateSpecTE", "-deadlock", "-config", "TraceWal.cfg", "TraceWal.tla"]
     t0 = time.time()
-    try:
-        p = subprocess.run(cmd, cwd=wd, env=common.env({"TRACE": tp}), stdout=subprocess.PIPE, stderr=subprocess.STDOUT,
-                           text=True, timeout=60 if quick else 600, errors="replace")
-    except subprocess.TimeoutExpired:
-        common.die_infra("B2: TLC timed out on TraceWal")
-    rej = re.findall(r'"REJECT ([^"]+)"', p.stdout)
-    m = None
-    for m in common._RE_STATES.finditer(p.stdout):
-        pass
-    if p.returncode != 0 or not m or int(m.group(2)) != len(lines) + 1:
-        common.die_infra("B2: TLC did not consume the whole trace (rc=%s):\n%s" % (p.returncode, p.stdout[-2000:]))
+    res = common.run_tlc("TraceWal", cfg="TraceWal.cfg", workdir=wd, workers=1, heap="4g", extra_env={"TRACE": tp},
+                         timeout=90 if quick else 600, jvm=("-XX:ParallelGCThreads=2",))
+    rej = re.findall(r'"REJECT ([^"]+)"', res.out)
+    if res.timed_out or res.rc != 0 or res.error or res.distinct != len(lines) + 1:
+        common.die_infra("B2: TLC did not consume the whole trace (rc=%s, %d of %d lines):\n%s"
+                         % (res.rc, res.distinct - 1, len(lines), res.out[-2000:]))
     vac = [r for r in rej if r.startswith("VACUITY-")]
     if len(set(vac)) != planted:
         common.die_infra("B2 vacuity test: planted %d corrupted trace lines, TraceWal rejected %s" % (planted, vac))
@@ -443,7 +436,8 @@ def main():
     for f in ("Snap.tla", "MC_Snap.tla", "MC_Snap.cfg"):
         shutil.copy(os.path.join(common.SPEC, f), snapwd)
     snapraw = os.path.join(snapwd, "emit.raw")
-    sres = run_tlc_local("MC_Snap", "MC_Snap.cfg", snapwd, 2, "1g", 120, snapraw)
+    sres = common.run_tlc("MC_Snap", cfg="MC_Snap.cfg", workdir=snapwd, workers=2, heap="1g", timeout=120, stdout_path=snapraw,
+                          jvm=("-XX:ParallelGCThreads=2",))
     common.tlc_ok(sres, "MC_Snap")
     snapscen = os.path.join(root, "scen-snap.ndjson")
     nsnap = 0
@@ -534,7 +528,7 @@ def main():
             continue
         V.report(sig, {"finding": f, "seed": seed, "how": "walsim %s: see finding.scenario; rebuild walsim and run the "
                        "scenario line with `walsim replay -in <file>` or the campaign with the same -seed" % f.get("campaign")},
-                 what=f.get("detail"))
+                 what="[%s %s] %s" % (f.get("campaign"), f.get("id"), f.get("detail")))
 
     ndiv = sum(divergences.values())
     st = C.stats
